@@ -1064,7 +1064,8 @@ def run_tseq_case(case):
     """A sequence on **table** profile registers.  Register i starts as the profile of frame `tables[i]`; `["tadd", dst, a, b]`
     stores `T[a] + T[b]` (`TableProfile.__add__`: the glue above `ColumnProfile.__add__`, with a placeholder for a column
     the right table lacks); `["q", t, first]` asks **every numeric column the table profile has** for its estimates and judges
-    them by the profile clauses against the concatenated data (a column missing in a frame = all nulls on its rows)."""
+    them by the profile clauses against the concatenated data (a column missing in a frame = all nulls on its rows) — a column
+    only the right table has included, when the sum carries it (left side all nulls)."""
     res = Res()
     res.fail = None
     res.items = []
@@ -1090,6 +1091,9 @@ def run_tseq_case(case):
             for n in a.names:
                 lc, rc = T[op[2]].column(n), T[op[3]].column(n)
                 new_fits[n] = bool(fa.get(n)) and (rc is None or (bool(fb.get(n)) and lc is not None and fits_together(lc, rc)))
+            for n in b.names:
+                if n not in a.cols:
+                    new_fits[n] = bool(fb.get(n))  # added to a stand-in without a histogram: nothing to trim
             try:
                 new = T[op[2]] + T[op[3]]
             except Exception as e:
@@ -1460,6 +1464,9 @@ def compare_tseq(ctx, c, mops, rounds, mouts):
         _, k, name, probes, below, above, nonnull = rd
         ctx.hit("tseq:q")
         ctx.hit("profile probes", len(probes))
+        if isinstance(mo, list) and mo and mo[0] == "nocol":
+            ctx.disagree(c, "column %r exists" % name, "no such column", what="the model's table profile has no column %r (operation %d of the table sequence)" % (name, k))
+            return
         if not (isinstance(mo, list) and mo and mo[0] == "q"):
             raise InfraError("model answered %r to a round of estimates" % (mo,))
         mb, ma = dec_vals("f", mo[1]), dec_vals("f", mo[2])
